@@ -35,7 +35,7 @@ QUOTE_STR = ['a"b', "a'b", "a'\"b", "a\\b", "a\nb", "a\rb", "é", "\x7f", " ",
 OTHERS = [[], [1, 2], {"a": True}, {"a": [1.5, None]}, ["x"], {}, [None], {"k": "v'\""}]
 
 
-EXTRA = ["c", "it's", "1.5", "A b", 2.5, 3.5, 4, "2"]
+EXTRA = ["c", "it's", "1.5", "A b", 2.5, 3.5, 4, "2", "draft", "final", "zz"]
 
 
 def value_pool(rng, tier):
@@ -87,6 +87,9 @@ def kind_schemas():
         ("enum-str", {"enum": ["a", "b", "A b", "3", "true", 'q"t', "2020-01-02"]}, {}),
         ("enum-int", {"enum": [1, 0, -7, 3]}, {}),
         ("enum-str-null", {"enum": ["a", None, "b"]}, {}),
+        ("enum-int-null", {"enum": [1, 2, None]}, {}),
+        ("lit-str-null", {"enum": ["draft", "final", None]}, {"literal_enums": True}),
+        ("lit-int-null", {"enum": [1, 2, None]}, {"literal_enums": True}),
         ("lit-str", {"enum": ["a", "b", "A b", "3", "true", 'q"t', "it's"]}, {"literal_enums": True}),
         ("lit-int", {"enum": [1, 0, -7, 3]}, {"literal_enums": True}),
         ("const-str", {"const": "a"}, {}),
@@ -212,7 +215,7 @@ def stage_b(run, tier, values, kinds):
 
 
 # ------------------------------------------------------------------ stage C (end to end)
-HEADER_OK = {"string", "uuid", "integer", "number", "boolean", "enum-str", "enum-int", "lit-str", "lit-int"}
+HEADER_OK = {"string", "uuid", "integer", "number", "boolean", "enum-str", "enum-int", "lit-str", "lit-int"}   # (a union - e.g. a nullable enum - is not allowed in a header)
 
 
 def header_ok(label):
@@ -327,7 +330,8 @@ def relevant_values(label, values, rng, tier):
     cats = {"string": QUOTE_STR, "date": DATE_STR, "date-time": DATE_STR, "uuid": UUID_STR, "integer": INTS + FLOATS + NUM_STR, "number": INTS + FLOATS + NUM_STR,
             "boolean": BOOLS + BOOL_STR + [0, 1], "binary": ["x"], "any": QUOTE_STR[:8] + OTHERS + [1, 1.5, True, float("inf")],
             "enum-str": ["a", "b", "A b", "3", "true", 'q"t', "2020-01-02", "A", "c", "", 3, True], "enum-int": [1, 0, -7, 3, 2, True, 1.0, "1", -1],
-            "enum-str-null": ["a", "b", "c", 1], "lit-str": ["a", "b", "A b", "3", "true", 'q"t', "it's", "A", "c", 3, True], "lit-int": [1, 0, -7, 3, 2, True, 1.0, "1"],
+            "enum-str-null": ["a", "b", "c", 1, "None", ""], "enum-int-null": [1, 2, 3, 0, "1", True, 1.0],
+            "lit-str-null": ["draft", "final", "zz", "None", "", 1], "lit-int-null": [1, 2, 3, 0, "1", True, 1.0], "lit-str": ["a", "b", "A b", "3", "true", 'q"t', "it's", "A", "c", 3, True], "lit-int": [1, 0, -7, 3, 2, True, 1.0, "1"],
             "const-str": ["a", "A", "b", 1, ""], "const-int": [3, 3.0, "3", 4, True], "const-float": [3.0, 3, "3.0", 2.5], "const-bool": [True, False, 1, "true", "True"],
             "union-int-str": [3, "3", 3.0, "a", True, 1.5, 'a"b'], "union-str-int": [3, "3", "a", 3.0, True], "union-bool-num": [True, 1, 1.5, "true", "1.5", 0],
             "union-date-dt": DATE_STR[:8] + [3], "union-int-null": [3, "3", 3.0, "a", 3.5], "union-enum-uuid": ["a", "c", CANON_UUID, "b", 1], "union-num-int": [3, 3.0, "3", 1.5, True]}
@@ -525,14 +529,19 @@ CLASS_IDS = {1: "float_token", 2: "string_lenient", 3: "int_lenient", 4: "bool_l
 HDR_CLASS = r"""
 Fixpoint first_accepting (o : oracles) (ms : list ckind) (v : jval) : option ckind :=
   match ms with [] => None | m :: r => if is_err (convert_value o m v) then first_accepting o r v else Some m end.
-Definition class_of (o : oracles) (k : ckind) (v : jval) : N :=
+Definition class1 (o : oracles) (k : ckind) (v : jval) : N :=
   match k with
-  | CUnion ms => match first_accepting o ms v with Some m => 100 + default_class o m v | None => 0 end
   | CAny => match v with JStr _ => default_class o CStr v | JFloat f => if is_float_tok (f_tok f) then 0 else 1 | _ => 0 end
   | CEnum VStr _ _ => match v with JStr s => if has_dq s then 50 else 0 | _ => 0 end
   | CEnum VInt _ _ | CLitEnum VInt _ => match v with JBool _ => 51 | _ => 0 end
+  | CLitEnum VStr _ => 0
   | CConst (JBool _) => 52
   | _ => default_class o k v
+  end.
+Definition class_of (o : oracles) (k : ckind) (v : jval) : N :=
+  match k with
+  | CUnion ms => match first_accepting o ms v with Some m => 100 + class1 o m v | None => 0 end
+  | _ => class1 o k v
   end.
 Definition N_eqb := N.eqb.
 """
@@ -549,7 +558,7 @@ def classify_c(run, fails, hdr):
         uniq.setdefault(c["i"], c)
     cs = list(uniq.values())
     # evaluate class_of for each failing case: one boolean term per candidate code
-    cand = [0, 1, 2, 3, 4, 5, 6, 7, 8, 9, 10, 11, 50, 51, 52] + [100 + k for k in range(12)]
+    cand = [0, 1, 2, 3, 4, 5, 6, 7, 8, 9, 10, 11, 50, 51, 52] + [100 + k for k in range(12)] + [150, 151, 152]
     terms = []
     for c in cs:
         for k in cand:
@@ -562,8 +571,10 @@ def classify_c(run, fails, hdr):
         fid = None
         if code is None:
             fid = None
+        elif code in (150, 151):
+            fid = {150: "enum_default_dq", 151: "numeric_alias"}[code] if what in ("rejected", "ill-emitted") else None
         elif code >= 100:
-            fid = None if code == 100 else CLASS_IDS[code - 100] if code - 100 in (1, 5, 7, 8) else "union_first_match"
+            fid = None if code in (100, 152) else CLASS_IDS[code - 100] if code - 100 in (1, 5, 7, 8) else "union_first_match" if code - 100 in (2, 3, 4, 6, 10) else None
         elif code == 50:
             fid = "enum_default_dq"
         elif code == 51:
@@ -574,6 +585,8 @@ def classify_c(run, fails, hdr):
             fid = CLASS_IDS[code]
         elif code == 0 and c["kind"] == "binary" and what in ("ill-silent",):
             fid = "binary_default_dropped"
+        if what in ("wrong-value", "not-sent") and ("became {'t': 'unset'}" in detail or what == "not-sent"):
+            fid = None     # a declared default that vanished is not explained by any listed class
         # a crash is only attributable to the crash class; broken modules only to the classes that emit unevaluable code
         if what == "crash" and fid != "default_nonfinite_crash":
             fid = None
@@ -758,6 +771,180 @@ def stage_merge(run, tier):
     return len(terms), len(bad)
 
 
+# ------------------------------------------------------------------ same-class-name enum sites with equal values and different defaults
+TWIN_VALUES = [(["active", "archived"], "active", "archived", "deleted"), ([1, 2, 3], 1, 3, 7), (["a b", "c"], "c", "a b", "A B")]
+TWIN_DEFAULTS = [(None, "B"), ("A", "B"), ("B", None), (None, "BAD"), ("A", "BAD"), ("BAD", "A"), ("B", "B")]
+TWIN_LAYOUTS = ["inline-inline", "component-inline", "property-parameter", "parameter-parameter"]
+
+
+def twin_default_cases(tier):
+    out = []
+    for vs, a, b, badv in TWIN_VALUES:
+        pick = {"A": a, "B": b, "BAD": badv, None: None}
+        for layout in TWIN_LAYOUTS:
+            for d1, d2 in TWIN_DEFAULTS:
+                for literal in ((False, True) if (tier == "thorough" or layout in ("inline-inline", "component-inline")) else (False,)):
+                    out.append({"values": vs, "d": [pick[d1], pick[d2]], "bad": [d1 == "BAD", d2 == "BAD"], "layout": layout, "literal": literal})
+    for j, c in enumerate(out):
+        c["j"] = j
+    return out
+
+
+def twin_default_sites(c):
+    """(kind, owner, property) of the two sites, in the order the parser processes them; both derive the class name Itm<j>ItemStatus."""
+    j = c["j"]
+    lay = c["layout"]
+    if lay == "inline-inline":
+        return [("prop", f"Itm{j}", "item_status"), ("prop", f"Itm{j}Item", "status")]
+    if lay == "component-inline":
+        return [("comp", f"Itm{j}ItemStatus", None), ("prop", f"Itm{j}", "item_status")]
+    if lay == "property-parameter":
+        return [("prop", f"Itm{j}", "item_status"), ("param", f"itm{j}Item", "status")]
+    return [("param", f"itm{j}", "item_status"), ("param", f"itm{j}Item", "status")]
+
+
+def stage_twin_defaults(run, tier):
+    from openapi_python_client import schema as oai
+    from openapi_python_client.parser.properties import property_from_data
+    from openapi_python_client.parser.properties.schemas import Class
+    from openapi_python_client.parser.errors import PropertyError
+    from openapi_python_client.utils import PythonIdentifier
+    import re
+    cases = twin_default_cases(tier)
+    # ---- stage B: the SECOND site's default is convert_value of its own (re-used) enum class on its own declared default
+    strs, ints = collect_oracle_inputs([d for c in cases for d in c["d"]] + [v for c in cases for v in c["values"]])
+    otxt, _, _ = vals.oracle_rows(strs, ints)
+    hdr = HDR0 + otxt
+    terms, meta = [], []
+    for c in cases:
+        if c["layout"] != "inline-inline":
+            continue
+        config, schemas = vals.ref_schemas({"literal_enums": c["literal"]})
+        obs = []
+        cks = []
+        for s, (parent, name) in enumerate((("Itm", "item_status"), ("ItmItem", "status"))):
+            sch = {"enum": list(c["values"])}
+            if c["d"][s] is not None:
+                sch["default"] = c["d"][s]
+            try:
+                p, schemas2 = property_from_data(name=name, required=False, data=oai.Schema.model_validate(sch), schemas=schemas, parent_name=parent, config=config)
+            except Exception as e:  # noqa
+                obs.append(("crash", type(e).__name__))
+                continue
+            if isinstance(p, PropertyError):
+                obs.append(("err",))
+            else:
+                obs.append(("ok", None if p.default is None else (p.default.python_code, p.default.raw_value)))
+                schemas = schemas2
+                cks.append(vals.ckind_of(p))
+        if not cks or len(set(cks)) != 1:
+            run.violation("harness-error", {"note": "twin sites do not derive one enum class", "case": str(c)[:300]})
+            continue
+        ck = cks[0]
+        for s in (0, 1):
+            terms.append(f"res_eqb (convert_value O {ck} {vals.cjval(c['d'][s])}) {vals.cresult(obs[s])}")
+            meta.append({"c": c, "site": s, "impl": obs[s], "term": f"convert_value O {ck} {vals.cjval(c['d'][s])}"})
+            run.note_case({"route": "twin-build", "values": c["values"], "defaults": repr(c["d"]), "site": s, "literal": c["literal"]}, nontrivial=True, kind="B:twin-default")
+    bad = run_cases(hdr, terms)
+    for i in bad[:8]:
+        m = meta[i]
+        run.violation("correspondence", {"route": "property_from_data (second enum site with the same class name and equal values)", "kind": "enum-twin", "input": m["c"]["d"], "values": m["c"]["values"],
+                                         "site": m["site"], "literal_enums": m["c"]["literal"], "impl": str(m["impl"]), "model": coq_eval(hdr, m["term"])[-300:],
+                                         "note": "the default of an enum site whose class is already registered is not convert_value of that site's own declared default"})
+    # ---- stage C: documents
+    cfg0 = vals.ref_schemas({})[0]
+    modname = lambda n: str(Class.from_string(string=n, config=cfg0).module_name)
+    epname = lambda n: str(PythonIdentifier(n, cfg0.field_prefix))
+    fails = []
+    for literal in (False, True):
+        cs = [c for c in cases if c["literal"] == literal]
+        for k in range(0, len(cs), 30):
+            grp = cs[k:k + 30]
+            schemas, paths = {}, {}
+            for c in grp:
+                for s, (kind, owner, prop) in enumerate(twin_default_sites(c)):
+                    sch = {"enum": list(c["values"])}
+                    if c["d"][s] is not None:
+                        sch["default"] = c["d"][s]
+                    if kind == "prop":
+                        schemas[owner] = {"type": "object", "properties": {prop: sch}}
+                    elif kind == "comp":
+                        schemas[owner] = sch
+                    else:
+                        paths[f"/w{c['j']}s{s}"] = {"get": {"operationId": owner, "parameters": [{"name": prop, "in": "query", "required": False, "schema": sch}],
+                                                             "responses": {"200": {"description": "ok"}}}}
+            with impl.Gen(impl.base_doc(components={"schemas": schemas}, paths=paths), cfg={"literal_enums": literal}) as g:
+                diag = g.diag()
+                files = g.files() if g.out.exists() else {}
+                if g.exc is not None or not files:
+                    run.violation("oracle", {"note": "twin-default document makes the generator raise", "exc": repr(g.exc)})
+                    continue
+                jobs, jmap = [], []
+                for c in grp:
+                    for s, (kind, owner, prop) in enumerate(twin_default_sites(c)):
+                        if kind == "prop" and f"models/{modname(owner)}.py" in files:
+                            jobs.append({"what": "model", "module": f"models.{modname(owner)}", "cls": owner, "attrs": [prop], "construct": True, "probes": []})
+                            jmap.append((c["j"], s))
+                        elif kind == "param" and f"api/default/{epname(owner)}.py" in files:
+                            jobs.append({"what": "endpoint", "module": f"api.default.{epname(owner)}"})
+                            jmap.append((c["j"], s))
+                inp = json.dumps({"pkg_parent": str(g.out.parent), "pkg": g.out.name, "jobs": jobs})
+                env = {k: v for k, v in os.environ.items() if k != "PYTHONPATH"}
+                env["PYTHONHASHSEED"] = "0"
+                r = subprocess.run([PY, "-I", "-W", "ignore", str(Path(__file__).resolve().parents[1] / "lib" / "gen_runner.py")], input=inp, capture_output=True, text=True, timeout=900, env=env)
+                try:
+                    res = json.loads(r.stdout.split("\n@@RESULT@@\n", 1)[1])
+                except Exception:
+                    res = None
+                if not isinstance(res, list):
+                    run.violation("oracle", {"note": "runner failed on a twin-default client", "detail": (r.stderr or r.stdout)[-400:]})
+                    continue
+                got = dict(zip(jmap, res))
+                for c in grp:
+                    for s, (kind, owner, prop) in enumerate(twin_default_sites(c)):
+                        if kind == "comp":
+                            continue
+                        d = c["d"][s]
+                        tag = {"kind": "enum-twin", "layout": c["layout"], "values": c["values"], "input": c["d"], "site": s, "literal_enums": literal}
+                        run.note_case(tag, nontrivial=True, kind="C:twin-default:" + c["layout"])
+                        hasdiag = any(re.search(r"/%s\b" % re.escape(owner), (h or "") + (dd or "")) or (kind == "param" and re.search(r"/w%ds%d\b" % (c["j"], s), (h or "") + (dd or "")))
+                                      for _, h, dd in diag)
+                        R = got.get((c["j"], s))
+                        if R is None:
+                            if not c["bad"][s] and not (c["layout"] == "component-inline" and c["bad"][0]):
+                                fails.append((tag, f"{kind} {owner}.{prop}: site with the valid default {d!r} was not generated (diagnostic: {hasdiag})"))
+                            elif not hasdiag:
+                                fails.append((tag, f"{kind} {owner}.{prop}: site dropped without a diagnostic"))
+                            continue
+                        if "import_error" in R or "runner_error" in R or "construct_error" in R:
+                            fails.append((tag, f"{kind} {owner}: {R.get('import_error') or R.get('runner_error') or R.get('construct_error')}"))
+                            continue
+                        obs = R["attrs"][prop] if kind == "prop" else R["defaults"].get(prop, {"t": "missing"})
+                        if c["bad"][s]:
+                            fails.append((tag, f"{kind} {owner}.{prop}: the invalid default {d!r} (not in {c['values']!r}) is not diagnosed; generated default {obs!r}"))
+                            continue
+                        exp = [{"t": "unset"}] if d is None else strict_typed({"enum": c["values"]}, d, literal)
+                        if not any(desc_eq(obs, e) or obs == e for e in exp):
+                            fails.append((tag, f"{kind} {owner}.{prop}: declared default {d!r} but the generated default is {obs!r}"))
+                            continue
+                        if d is not None:
+                            wire = None
+                            if kind == "prop":
+                                wire = R.get("to_dict", {}).get("v", {}).get(prop)
+                            elif "kwargs" in R:
+                                wire = R["kwargs"].get("v", {}).get("params", {}).get("v", {}).get(prop)
+                            if wire is None or _dec(wire) != d or type(_dec(wire)) is not type(d):
+                                fails.append((tag, f"{kind} {owner}.{prop}: declared default {d!r} is not what is sent when the argument is omitted ({wire!r})"))
+    seen = set()
+    for tag, detail in fails:
+        k = json.dumps([tag["layout"], tag["values"], tag["input"], tag["site"], tag["literal_enums"]], default=str)
+        if k in seen:
+            continue
+        seen.add(k)
+        run.violation("oracle", {**tag, "detail": detail[:400], "note": "stage C (document oracle): every enum site keeps ITS OWN declared default, an invalid one is diagnosed - also when the enum class is shared with another site"})
+    return len(terms), len(bad)
+
+
 def run(run, tier, replay=None):
     values = value_pool(run.rng, tier)
     kinds = kind_schemas()
@@ -780,9 +967,10 @@ def run(run, tier, replay=None):
     nc = stage_c(run, tier, values, kinds, hdr, facts)
     run.extra["stage_c_cases"] = nc
     nm, bm = stage_merge(run, tier)
-    run.corr["cases"] += nm
-    run.corr["mismatches"] += bm
-    run.corr["what"] += "; merge_properties on same-class / narrowing pairs with defaults == Merge.merge"
+    nt, bt = stage_twin_defaults(run, tier)
+    run.corr["cases"] += nm + nt
+    run.corr["mismatches"] += bm + bt
+    run.corr["what"] += "; merge_properties on same-class / narrowing pairs with defaults == Merge.merge; second enum site of one class name: default == convert_value of its own declared default"
     run.assumptions += ["float(), str(float), dateutil isoparse and uuid.UUID are oracles: the model takes their results from tables computed by the real functions on the strings of the run; "
                         "only the token class of str(float) is used (sampled law: float literal token or inf/-inf/nan)",
                         "default_class code 9 (string not repr-printable) is a restriction of the model's literal lexer, not a defect class; such defaults are covered by the correspondence and the oracle only",
